@@ -15,7 +15,7 @@ ID = "C09"
 LEAN_MODULE = "Basyx.Props.C09"
 LEVEL = "proof"
 MANIFEST = {
-    "text": "Lean theorems for EVERY document tree with any number of damaged positions: the failsafe JSON and XML readers never raise "
+    "text": "Lean theorems for EVERY document tree with any number of damaged positions whose conversions raise documented kinds (explicit hypothesis `noOtherL`; `c09_errors_documented`: the readers add no undocumented kind of their own; `c09_undocumented_escapes`: an undocumented kind does escape, so the hypothesis is needed — the correspondence and the oracle report such a conversion): the failsafe JSON and XML readers never raise "
             "and return exactly the identifiables that can be read, each on its own (isolation, damaged item dropped, nothing else "
             "changes); undamaged identifiables are returned unchanged in every mode; whatever strict accepts failsafe returns "
             "identically, otherwise strict ends in one of the four documented kinds. The obligation re-checked in the kernel on every "
